@@ -8,12 +8,16 @@ import (
 	"encoding/hex"
 	"encoding/json"
 	"fmt"
+	"io"
 	"os"
 	"path/filepath"
 	"runtime"
+	"runtime/debug"
+	"runtime/trace"
 	"sync"
 	"sync/atomic"
 	"testing"
+	"time"
 
 	"github.com/bytemare/secp256k1"
 	"github.com/bytemare/secp256k1/verifharness/gen"
@@ -50,6 +54,11 @@ type caseC16 struct {
 	// rewriting the bytes AROUND the shared slices - before them and in their spare capacity - never the slices themselves. The
 	// callee was handed len(slice) bytes; anything it reads beyond is a data race with that owner.
 	TailWriter bool `json:"tail_writer,omitempty"`
+	// MsgLen > 0: the shared message is MsgLen bytes of a pattern instead of Msg (megabytes: many goroutines hash the same large
+	// message under the same DST at the same time). Knobs: another goroutine keeps switching runtime facilities on and off during
+	// the calls (the execution tracer, the GC percentage, GOMAXPROCS, a forced collection).
+	MsgLen int  `json:"msg_len,omitempty"`
+	Knobs  bool `json:"knobs,omitempty"`
 }
 
 type call struct {
@@ -108,7 +117,14 @@ func buildEnv(c caseC16) (*env, error) {
 	_ = ev.tmplS.Encode()
 	_ = ev.tmplS.LessOrEqual(ev.tmplS)
 	var mb, db []byte
-	ev.msg, mb = gen.Place(gen.HexBytes(c.Msg), c.MsgLay)
+	msgData := gen.HexBytes(c.Msg)
+	if c.MsgLen > 0 {
+		msgData = make([]byte, c.MsgLen)
+		for i := range msgData {
+			msgData[i] = byte(i*13 + c.MsgLen)
+		}
+	}
+	ev.msg, mb = gen.Place(msgData, c.MsgLay)
 	ev.dst, db = gen.Place(gen.HexBytes(c.Dst), c.DstLay)
 	ev.backings = [][]byte{mb, db}
 	ev.inner = [][2]int{{len(mb) - cap(ev.msg), len(mb) - cap(ev.msg) + len(ev.msg)}, {len(db) - cap(ev.dst), len(db) - cap(ev.dst) + len(ev.dst)}}
@@ -143,12 +159,14 @@ func (ev *env) run(c call) []byte {
 		dst = ev.dst2
 	}
 	switch c.Fn {
+	// the caller owns what a call returns and goes on computing with it (H(m) + P, h + k): a returned object that is handed to
+	// two callers shows as a race and as a different result
 	case "HashToGroup":
-		return secp256k1.HashToGroup(ev.msg, dst).Encode()
+		return secp256k1.HashToGroup(ev.msg, dst).Add(e).Encode()
 	case "EncodeToGroup":
-		return secp256k1.EncodeToGroup(ev.msg, dst).Encode()
+		return secp256k1.EncodeToGroup(ev.msg, dst).Add(e).Encode()
 	case "HashToScalar":
-		return secp256k1.HashToScalar(ev.msg, dst).Encode()
+		return secp256k1.HashToScalar(ev.msg, dst).Add(s).Encode()
 	case "E.Add":
 		return e.Add(ei).Encode()
 	case "E.Subtract":
@@ -378,10 +396,46 @@ func runC16(c caseC16, o *gen.Obs) error {
 	} else {
 		close(writerDone)
 	}
+	knobsDone := make(chan struct{})
+	if c.Knobs {
+		o.Class("runtime-knobs-toggled")
+		go func() {
+			defer close(knobsDone)
+			<-start
+			procs := runtime.GOMAXPROCS(0)
+			for round := 0; ; round++ {
+				select {
+				case <-stop:
+					runtime.GOMAXPROCS(procs)
+					return
+				default:
+				}
+				switch round % 4 {
+				case 0:
+					if trace.Start(io.Discard) == nil {
+						time.Sleep(200 * time.Microsecond)
+						trace.Stop()
+					}
+				case 1:
+					old := debug.SetGCPercent(10)
+					runtime.Gosched()
+					debug.SetGCPercent(old)
+				case 2:
+					runtime.GOMAXPROCS(1 + round%procs)
+				default:
+					runtime.GC()
+				}
+				time.Sleep(100 * time.Microsecond)
+			}
+		}()
+	} else {
+		close(knobsDone)
+	}
 	close(start)
 	wg.Wait()
 	close(stop)
 	<-writerDone
+	<-knobsDone
 	if c.TailWriter {
 		for bi, b := range ev.backings { // put the surroundings back, the shared slices must be untouched
 			in := ev.inner[bi]
@@ -449,6 +503,7 @@ var c16 = gen.Register(&gen.Check[caseC16]{
 			c.Order = append(c.Order, rapid.Permutation(seq(n)).Draw(t, "order"))
 		}
 		c.TailWriter = gen.Chance(t, "tailWriter", 1, 4)
+		c.Knobs = gen.Chance(t, "knobs", 1, 8)
 		switch gen.Pick(t, "load", 12) {
 		case 0: // a swarm: a few hundred goroutines, a short list each
 			if n > 3 {
@@ -496,6 +551,14 @@ var c16 = gen.Register(&gen.Check[caseC16]{
 				}
 			}
 		}
+		// many goroutines hash ONE large message under one DST at the same time and go on computing with what they get
+		for _, n := range []int{1<<20 + 1, 3 << 20} {
+			out = append(out, caseC16{E: all.E, S: all.S, MsgLen: n, Dst: all.Dst, Calls: []call{{Fn: "HashToScalar"}, {Fn: "HashToGroup"}, {Fn: "EncodeToGroup"}},
+				Order: [][]int{{0, 1, 2}, {0, 1, 2}, {1, 0, 2}, {2, 1, 0}, {0, 2, 1}, {1, 2, 0}, {2, 0, 1}, {0, 1, 2}}})
+		}
+		// the runtime's knobs move while the calls run
+		out = append(out, caseC16{E: all.E, S: all.S, Msg: "616263", Dst: all.Dst, Calls: []call{{Fn: "HashToScalar"}, {Fn: "HashToGroup"}, {Fn: "EncodeToGroup"}, {Fn: "E.Multiply", I: 1}, {Fn: "Random"}},
+			Order: [][]int{{0, 1, 2, 3, 4}, {4, 3, 2, 1, 0}, {1, 0, 3, 2, 4}, {2, 4, 0, 1, 3}}, Rep: 300, Knobs: true})
 		// P and -P decoded at the same time; one shared computed element (Z != 1) observed by everybody
 		out = append(out, caseC16{E: all.E, S: all.S, Msg: "00", Dst: all.Dst, Calls: []call{{Fn: "E.Decode", I: 1}, {Fn: "E.Decode-neg", I: 1}, {Fn: "E.DecodeHex", I: 1}},
 			Order: [][]int{{0, 1, 2}, {1, 0, 2}, {1, 2, 0}, {0, 2, 1}}, Rep: 300})
@@ -511,7 +574,7 @@ var c16 = gen.Register(&gen.Check[caseC16]{
 		}
 		return append(out, all)
 	},
-	Required: []string{"two-oversize-dsts", "shared-spare-capacity-dst", "goroutines>=2", "goroutines>128", "repeated-lists", "tail-writer", "call:HashToGroup", "call:HashToScalar", "call:E.Multiply"},
+	Required: []string{"two-oversize-dsts", "shared-spare-capacity-dst", "goroutines>=2", "goroutines>128", "repeated-lists", "tail-writer", "runtime-knobs-toggled", "call:HashToGroup", "call:HashToScalar", "call:E.Multiply"},
 	Run:      runC16,
 })
 
